@@ -34,8 +34,9 @@ def run(ctx):
             ctx.guard(part_erasure, ctx, kc, "C05.part")
             # same screened _match as the generic sibling
             sib = "moclo.core.modules.AbstractModule" if kc.role == "module" else "moclo.core.vectors.AbstractVector"
-            o, raw = p.class_attr_def(kc.ci, "_match")
-            so, sraw = p.class_attr_def(p.get_class(sib), "_match")
+            from ..roles import match_slot
+            o, raw = p.class_attr_def(kc.ci, match_slot(p))
+            so, sraw = p.class_attr_def(p.get_class(sib), match_slot(p))
             r.ob("C05.same-match", kc.name, raw is sraw,
                  "the part resolves _match to %s, its generic sibling to %s" % (getattr(raw, "qualname", raw), getattr(sraw, "qualname", sraw)), kc.ci.where())
         elif kc.structure_owner is kc.ci:
